@@ -18,16 +18,25 @@ sed "s#=> /repo\$#=> $REPO#" go.mod > "$SCR/go.mod"
 [ -f go.sum ] && cp go.sum "$SCR/go.sum"
 MODFLAG="-modfile=$SCR/go.mod"
 
-go build $MODFLAG -o "$SCR/verif" ./cmd/verif >"$SCR/build.log" 2>&1 || { cat "$SCR/build.log"; echo "BUILD FAILURE (plain variant)"; exit 2; }
+# the list of package-level functions of the tree under test (cannot be reflected) is regenerated
+# and laid over checks/zz_api_gen.go
+go run $MODFLAG ./cmd/genapi "$REPO/jen" "$SCR/zz_api_gen.go" >"$SCR/genapi.log" 2>&1 || { cat "$SCR/genapi.log"; echo "API GENERATION FAILURE"; exit 2; }
+printf '{"Replace": {"%s": "%s"}}\n' "$HERE/checks/zz_api_gen.go" "$SCR/zz_api_gen.go" > "$SCR/overlay-plain.json"
+go build $MODFLAG -overlay "$SCR/overlay-plain.json" -o "$SCR/verif" ./cmd/verif >"$SCR/build.log" 2>&1 || { cat "$SCR/build.log"; echo "BUILD FAILURE (plain variant)"; exit 2; }
 VARIANT=$("$SCR/verif" variant "$ID") || { echo "unknown property $ID"; exit 2; }
 BIN="$SCR/verif"
 if [ "$VARIANT" = instr ]; then
   go run $MODFLAG ./cmd/instr "$REPO/jen" "$SCR/instr" >"$SCR/instr.log" 2>&1 || { cat "$SCR/instr.log"; echo "INSTRUMENTATION FAILURE"; exit 2; }
-  go build $MODFLAG -tags verif -overlay "$SCR/instr/overlay.json" -o "$SCR/verif-instr" ./cmd/verif >"$SCR/build.log" 2>&1 || { cat "$SCR/build.log"; echo "BUILD FAILURE (instr variant)"; exit 2; }
+  python3 - "$SCR/instr/overlay.json" "$SCR/overlay-plain.json" "$SCR/overlay-instr.json" <<'PY' || exit 2
+import json, sys
+a = json.load(open(sys.argv[1])); b = json.load(open(sys.argv[2]))
+a["Replace"].update(b["Replace"]); json.dump(a, open(sys.argv[3], "w"))
+PY
+  go build $MODFLAG -tags verif -overlay "$SCR/overlay-instr.json" -o "$SCR/verif-instr" ./cmd/verif >"$SCR/build.log" 2>&1 || { cat "$SCR/build.log"; echo "BUILD FAILURE (instr variant)"; exit 2; }
   BIN="$SCR/verif-instr"
   export VERIF_INSTR_LOG="$SCR/instr.log"
   if [ "$ID" = C09 ]; then
-    go build $MODFLAG -race -o "$SCR/verif-race" ./cmd/verif >"$SCR/build.log" 2>&1 || { cat "$SCR/build.log"; echo "BUILD FAILURE (race variant)"; exit 2; }
+    go build $MODFLAG -race -overlay "$SCR/overlay-plain.json" -o "$SCR/verif-race" ./cmd/verif >"$SCR/build.log" 2>&1 || { cat "$SCR/build.log"; echo "BUILD FAILURE (race variant)"; exit 2; }
     export VERIF_RACE_BIN="$SCR/verif-race"
   fi
 fi
